@@ -79,6 +79,11 @@ NEAR = [
     'def e { if f == 1_000 { return 1 weighted 1 } }', 'def e { if f == "a" "b" { return 1 weighted 1 } }', "def e { if f == 'a\n' { return 1 weighted 1 }\n }".replace("\\n", "\n"), 'def e { if f == "a { return 1 weighted 1 } }',
     'def e { if f == True { return 1 weighted 1 } else { return None weighted 1 } }', 'def e { if f.g == 1 { return 1 weighted 1 } }', 'def e { if f[0] == 1 { return 1 weighted 1 } }', 'def e { if f(1) == 1 { return 1 weighted 1 } }',
     'def e { if f + 1 == 2 { return 1 weighted 1 } }', 'def e { if f - 1 == 2 { return 1 weighted 1 } }', 'def e { if f == 1 { return 1 weighted 1 } } def', 'def e { return 1 weighted 1 } def e { return 1 weighted 1 }',
+    'def e { if f not /* c */ in (1) { return 1 weighted 1 } }', 'def e { if f not/**/in (1) { return 1 weighted 1 } }', 'def e { if f not // c\n in (1) { return 1 weighted 1 } }',
+    'def e { if f == 1 { return 1 weighted 1 } else /* c */ if g == 1 { return 2 weighted 1 } }', 'def e { if f == 1 { return 1 weighted 1 } else // c\n if g == 1 { return 2 weighted 1 } }',
+    'def e { if f == 1 { return 1 weighted 1 } el/**/se { return 2 weighted 1 } }', 'def e { re/**/turn 1 weighted 1 }', 'def e { return 1 weight/* */ed 1 }', 'de f e { return 1 weighted 1 }',
+    'def e { if f = = 1 { return 1 weighted 1 } }', 'def e { if f >/**/= 1 { return 1 weighted 1 } }', 'def e { if f ! /**/ = 1 { return 1 weighted 1 } }', 'def e { return 1 weighted 1 /**/. 5 }',
+    'def e { return 1 weighted 1./**/5 }', 'def e { return 1 weighted 1 .5 }', 'def e { return "a" "b" weighted 1 }', 'def e { return "a"/**/"b" weighted 1 }',
     'DEF e { return 1 weighted 1 }', 'def e { RETURN 1 weighted 1 }', 'def e { return 1 WEIGHTED 1 }', 'def e { If f == 1 { return 1 weighted 1 } }', 'def e { if f IN (1) { return 1 weighted 1 } }', 'def e { if f == 1 AND g == 2 { return 1 weighted 1 } }',
     'def e: return 1 weighted 1', 'def e():\n  return 1', 'experiment e { return 1 weighted 1 }', '{ "def": "e" }', '', ' ', '\n', '// only a comment', '/* only a comment */',
 ]  # fmt: skip
